@@ -28,10 +28,10 @@ INFO = dict(
     outside="fully symbolic filler at real size; files longer than 3 buffers; the 2nd..nth candidate of iter_beacon_config_blocks; the "
     "relative order of the 253 left-over keys in all-keys mode (byte-frequency heuristic: implementation-defined, the oracle only "
     "requires priority of the listed keys and that the result is a true candidate at the smallest offset for its key); Guardrails "
-    "fallback (C17). H1 replaces pe.find_mz_offset by None for files < 88 bytes (lemma discharged in C09's lemma instances and "
+    "fallback (C17). H1 replaces pe.find_mz_offset by None for files < 64 bytes (lemma discharged in C09's lemma instances and "
     "re-discharged here per file size)",
     stubs=["io.BytesIO / OS file -> models", "io.DEFAULT_BUFFER_SIZE seen by utils -> parameter (H1) / real 8192 (H2, H3)",
-           "pe.find_mz_offset -> None on files < 88 bytes (lemma-justified cut, H1 only)"],
+           "pe.find_mz_offset -> None on files < 64 bytes (lemma-justified cut, H1 only)"],
     assumptions=["z3 decides QF_BV soundly"],
 )
 
@@ -135,7 +135,7 @@ def h_small(N, B, keymode, osfile):
             utils.io = native_io(B)
         else:
             I.set_override(UTILS, "io", io_shim(B))
-            I.stubs[pe.find_mz_offset] = lambda *a, **k: None  # files < 88 bytes cannot hold DOS + file header (lemma instances)
+            I.stubs[pe.find_mz_offset] = lambda *a, **k: None  # files < 64 bytes cannot hold a DOS header (lemma instances; NOT true from 64 bytes on: e_lfanew may point into the DOS header itself)
         try:
             kind, r = outcome(BeaconConfig.from_file, mkfile(F, osfile), **kw)
         finally:
@@ -333,7 +333,7 @@ def instances(tier):
             for osf in ((False, True) if B == 5 else (False,)):
                 out.append(Instance("H4 two blocks under two keys buffer=%d keys=%s %s" % (B, km, "osfile" if osf else "bytesio"), h_priority(B, km, osf),
                                     dict(kind="H4", buffer=B, keys=km, file_model="os" if osf else "BytesIO", cost=5000), split=10, max_loop=3000))
-    for N in ((0, 7, 10) if q else (0, 7, 10, 12, 40, 87)):
+    for N in ((0, 7, 10) if q else (0, 7, 10, 12, 40, 63)):
         out.append(Instance("lemma find_mz_offset None on %d bytes" % N, h_lemma(N), dict(kind="lemma", file=N, cost=10), max_loop=3000))
     # H2
     B = _io.DEFAULT_BUFFER_SIZE
